@@ -13,6 +13,9 @@ Driver ops for the API surface that the other ops reach only indirectly.
   rkraw fwd|rev <baseh> <hex hay> <basen>|@<off> <hex needle>
       `rabinkarp::Finder::find_raw` / `FinderRev::rfind_raw`; with `@<off>` the needle pointers
       point into the haystack region at `<off>`.
+  ppforeign <isa> <hex short needle> <hex long needle> <i1> <i2>
+      `Pair::with_indices(long, i1, i2)` given to `<isa>::packedpair::Finder::with_pair(short, ..)`:
+      `built`, or the panic of `needle[index]` when an offset is outside the short needle.
   findfree <cfg> fwd|rev <hex needle> <hbase> <hex hay>
       `memmem::find_iter(hay, needle)` / `memmem::rfind_iter(hay, needle)` run to exhaustion:
       the matches, `;`-separated (`-` when there is none).
@@ -21,6 +24,7 @@ import MemchrModel.Driver.Util
 import MemchrModel.Driver.MemchrApi
 import MemchrModel.Driver.Memmem
 import MemchrModel.Driver.IsEqualRk
+import MemchrModel.Driver.ShiftOrPair
 
 namespace Memchr.Driver
 
@@ -115,6 +119,20 @@ def handleSurface (op : String) (args : List String) : Option String :=
       some (fmtRes (fun o => fmtOptNat (o.map (· - bh))) 1
         ((RabinKarp.FinderRev.new cons >>= fun f => f.rfindRaw mh mn bh (bh + hb.size) nstart nend) {}))
     else none
+  | "ppforeign", [_isa, short, long, i1, i2] => do
+    let sb ← parseHex short
+    let lb ← parseHex long
+    let i1 ← parseU8 i1
+    let i2 ← parseU8 i2
+    let ns : Slice := Slice.ofMem { region := 1, base := 0, bytes := sb }
+    let nl : Slice := Slice.ofMem { region := 2, base := 0, bytes := lb }
+    match Pair.withIndices nl i1 i2 with
+    | none => some "ok badpair steps=0 loads=-"
+    | some p =>
+      match Fallback.withPair ns p {} with
+      | .fault e => some (fmtFault e)
+      | .ok none _ => some "ok nofinder steps=0 loads=-"
+      | .ok (some _) _ => some "ok built steps=0 loads=-"
   | "findfree", [cfg, dir, needle, hbase, hay] => do
     let cfg ← parseMemmemCfg cfg
     let n := mmNeedle (← parseHex needle)
